@@ -69,6 +69,7 @@ type Recorder struct {
 	Plan      map[int]bool
 	InnerMode string // "error-ack" | "no-credit" | "credit-less" | "credit-more" (only when the planned index is inner.OnRecvPacket)
 	Quiet     bool   // do not record store calls' arguments (speed)
+	PanicMode bool   // the planned calls PANIC instead of returning an error (a third-party module reached with hostile values)
 }
 
 func (r *Recorder) Reset(plan map[int]bool, innerMode string) {
@@ -88,6 +89,9 @@ func (r *Recorder) hit(site, args string, msg proto.Message, fallible bool) bool
 		r.nFall++
 	}
 	r.Calls = append(r.Calls, c)
+	if c.Faulted && r.PanicMode {
+		panic("injected panic at " + site)
+	}
 	return c.Faulted
 }
 
@@ -506,6 +510,7 @@ func NewInstr(w *World, withSwap bool) (in *Instr, err error) {
 // Recv on the instrumented stack with a fault plan.
 func (in *Instr) Recv(ctx sdk.Context, p Pkt, plan map[int]bool, innerMode string) RecvResult {
 	in.Rec.Reset(plan, innerMode)
+	in.Rec.PanicMode = innerMode == "panic"
 	return RecvOn(in.Stack, ctx, p)
 }
 
